@@ -206,6 +206,7 @@ def scenarios(files, names):
         {"id": "compare-multiway", "cmd": "compare", "names": names, "args": {"vcfs": files["cmp"], "kw": {"ignore_sample_name": True}}},
         {"id": "stats", "cmd": "stats", "names": names, "args": {"vcf": files["A_phased"]}},
         {"id": "split", "cmd": "split", "names": names, "args": {"bam": files["A_unaligned"], "list": files["A_list"]}},
+        {"id": "find-snv-candidates", "cmd": "find_snv", "names": names, "chroms": chroms, "args": {"bam": a["bam"], "fasta": a["fasta"], "kw": {"minabs": 1, "minrel": 0.1, "multi_allelics": True}}},
         {"id": "unphase", "cmd": "unphase", "names": names, "args": {"vcf": files["A_phased"]}},
     ]
     return sc
@@ -230,7 +231,7 @@ def digest(outdir):
         else:
             with open(path, "rb") as f:
                 txt = f.read().decode(errors="replace")
-            out[fn] = "\n".join(l for l in txt.splitlines() if not l.startswith("##commandline"))
+            out[fn] = "\n".join(l for l in txt.splitlines() if not l.startswith("##commandline") and not l.startswith("##fileDate"))
     return out
 
 
